@@ -20,6 +20,9 @@ LAYOUTS = {
     "A": ["E", "I", "I", "I", "T"],
     "B": ["E", "T", "I", "I", "I"],
     "C": ["P", "I", "I"],
+    # D: data cubes - celestial axes innermost (K) and a (RA, DEC, FREQ)-ordered array, i.e. FITS axes
+    # FREQ, RA, DEC with the spectral axis innermost (U); both have a length-1 spectral axis
+    "D": ["E", "I", "K", "U"],
 }
 
 
@@ -48,6 +51,29 @@ def make_file(path, layout, file_no):
         elif kind == "T":
             t = Table({"a": np.arange(3), "b": np.arange(3) * 2.0})
             hdus.append(fits.BinTableHDU(t))
+        elif kind in "KU":
+            ny, nx = 4 + j + file_no, 7 + j + 2 * file_no
+            plane = np.full((ny, nx), 100.0 * file_no + 10.0 * j, dtype=np.float32) + np.arange(nx, dtype=np.float32)[None, :] * 0.01
+            if kind == "K":
+                data = plane[None, :, :]  # numpy (FREQ, DEC, RA): FITS axes RA, DEC, FREQ
+                order = ["RA", "DEC", "FREQ"]
+            else:
+                data = plane[:, :, None]  # numpy (DEC, RA, FREQ): FITS axes FREQ, RA, DEC
+                order = ["FREQ", "RA", "DEC"]
+            h = fits.ImageHDU(data)
+            for key, (ra, dec, sc) in ((" ", (10.0 + file_no, 20.0 + j, 1e-3)), ("A", (200.0 + file_no, -30.0 - j, 2e-3))):
+                k = "" if key == " " else key
+                for ax, name in enumerate(order, 1):
+                    if name == "RA":
+                        h.header["CTYPE%d%s" % (ax, k)] = "RA---TAN"; h.header["CRVAL%d%s" % (ax, k)] = ra
+                        h.header["CRPIX%d%s" % (ax, k)] = (nx + 1) / 2.0; h.header["CDELT%d%s" % (ax, k)] = -sc
+                    elif name == "DEC":
+                        h.header["CTYPE%d%s" % (ax, k)] = "DEC--TAN"; h.header["CRVAL%d%s" % (ax, k)] = dec
+                        h.header["CRPIX%d%s" % (ax, k)] = (ny + 1) / 2.0; h.header["CDELT%d%s" % (ax, k)] = sc
+                    else:
+                        h.header["CTYPE%d%s" % (ax, k)] = "FREQ"; h.header["CRVAL%d%s" % (ax, k)] = 1.4e9
+                        h.header["CRPIX%d%s" % (ax, k)] = 1.0; h.header["CDELT%d%s" % (ax, k)] = 1e6
+            hdus.append(h)
         else:
             ny, nx = 3 + j + 2 * file_no, 5 + 2 * j + file_no  # pairwise distinct shapes
             data = np.full((ny, nx), 100.0 * file_no + 10.0 * j, dtype=np.float32)
@@ -60,7 +86,7 @@ def make_file(path, layout, file_no):
 
 
 def image_hdus(layout):
-    return [j for j, k in enumerate(LAYOUTS[layout]) if k in "PI"]
+    return [j for j, k in enumerate(LAYOUTS[layout]) if k in "PIKU"]
 
 
 def expected(path, hdu_index, key):
@@ -71,6 +97,10 @@ def expected(path, hdu_index, key):
         hdu = hdul[hdu_index]
         data = np.array(hdu.data)
         w = WCS(hdu.header, key=key)
+    if data.ndim == 3:
+        # the celestial plane of a cube with a length-1 spectral axis
+        data = data.reshape([n for n in data.shape if n != 1]) if 1 in data.shape else data[0]
+        w = w.celestial
     return data, w
 
 
@@ -121,7 +151,15 @@ def cli_expressible(hdu_sel, key_sel):
 
 def check_case(case, d, part):
     layouts, hdu_sel, key_sel, entry = case
-    paths = [os.path.join(d, "f%d_%s.fits" % (i, l)) for i, l in enumerate(layouts)]
+    # a layout written "A=0" names the file of position 0 again (the same path twice in the input)
+    paths = []
+    for i, l in enumerate(layouts):
+        if "=" in l:
+            l, ref = l.split("=")
+            paths.append(os.path.join(d, "f%d_%s.fits" % (int(ref), l)))
+        else:
+            paths.append(os.path.join(d, "f%d_%s.fits" % (i, l)))
+    layouts = tuple(l.split("=")[0] for l in layouts)
     n = len(paths)
     # per-file expected selection
     exp_idx = []
@@ -182,15 +220,17 @@ def check_case(case, d, part):
 def gen_cases(tier):
     lay_names = ["A", "B", "C"]
     if tier == "quick":
-        combos = [("A",), ("C",), ("A", "B"), ("B", "C"), ("A", "B", "C"), ("C", "A", "A")]
+        combos = [("A",), ("C",), ("D",), ("A", "B"), ("B", "C"), ("D", "A"), ("A", "A=0"), ("A", "B", "C"), ("C", "A", "A"), ("B", "D", "B=0")]
     else:
+        lay_names = ["A", "B", "C", "D"]
         combos = []
         for n in (1, 2, 3):
             combos += list(itertools.product(lay_names, repeat=n))
+        combos += [("A", "A=0"), ("D", "D=0"), ("A", "B", "A=0"), ("B", "D", "B=0"), ("C", "C=0", "C=0")]
     cases = []
     for layouts in combos:
         n = len(layouts)
-        valid = [image_hdus(l) for l in layouts]
+        valid = [image_hdus(l.split("=")[0]) for l in layouts]
         common = sorted(set(valid[0]).intersection(*valid[1:]))
         hdu_sels = [None] + common + [list(t) for t in itertools.product(*valid)]
         key_sels = [" ", "A"] + [list(t) for t in itertools.product([" ", "A"], repeat=n)]
@@ -211,6 +251,8 @@ def _work(chunk):
         made = set()
         for case in chunk:
             for i, l in enumerate(case[0]):
+                if "=" in l:
+                    continue
                 if (i, l) not in made:
                     make_file(os.path.join(d, "f%d_%s.fits" % (i, l)), l, i)
                     made.add((i, l))
@@ -287,7 +329,8 @@ def replay(payload):
             tile_fits_end_to_end(part)
         else:
             for i, l in enumerate(cfg["layouts"]):
-                make_file(os.path.join(d, "f%d_%s.fits" % (i, l)), l, i)
+                if "=" not in l:
+                    make_file(os.path.join(d, "f%d_%s.fits" % (i, l)), l, i)
             check_case((tuple(cfg["layouts"]), cfg["hdu_index"], cfg["wcs_key"], cfg["entry"]), d, part)
     for sig, (detail, _) in part.violations.items():
         print("REPLAY-FAIL", sig, detail)
